@@ -782,7 +782,17 @@ def check_simplify_shapes(ctx, rep, f, rule='R-MODEL.M3'):
     evaluated, or None when the body is outside the evaluator's fragment."""
     from .. import shapes
     from ..abseval import Unsupported as U2
-    trees = shapes.shapes(3)
+    trees = list(shapes.shapes(3))
+    # one level deeper for rules that look at the class of a GRANDCHILD (`(r* . s)*`): the lowest compound level is one
+    # representative per class over letters, the two levels above it are complete
+    a = ('Symbol', 'a')
+    reps = [('Zero',), ('One',), a, ('Iteration', a), ('Sum', a, a), ('Concat', a, a)]
+    mid = reps[:3] + [('Iteration', x) for x in reps] + [(k, x, y) for k in ('Sum', 'Concat') for x in reps for y in reps]
+    seen_t = set(trees)
+    for t in [('Iteration', x) for x in mid] + [(k, x, y) for k in ('Sum', 'Concat') for x in mid for y in mid]:
+        if t not in seen_t:
+            seen_t.add(t)
+            trees.append(t)
     n = 0
     try:
         for t in trees:
@@ -806,7 +816,7 @@ def check_simplify_shapes(ctx, rep, f, rule='R-MODEL.M3'):
     except (U2, Unsupported, RecursionError) as e:
         rep.note('{}: finite-shape evaluation not applicable ({})'.format(f.short, e))
         return None
-    rep.holds(rule, f, 'def ' + f.name, 'on all {} trees of depth <= 3 over 0, 1 and distinct letters the result is equal to the argument in Kleene algebra and not larger'.format(n))
+    rep.holds(rule, f, 'def ' + f.name, 'on all {} trees (every tree of depth <= 3 over 0, 1 and distinct letters, and the trees of depth 4 whose lowest compound level is one representative per class) the result is equal to the argument in Kleene algebra and not larger'.format(n))
     return n
 
 
